@@ -30,6 +30,22 @@ pub fn idx(i: usize) -> Field {
     }
 }
 
+/// The table as compared with the model in C15's own histories: distances and aggregates (to 1e-9); the
+/// neighbour and pair indices are left to the brute-force oracle, because at an exact tie between two
+/// neighbours either index is right and the last bit of a distance decides which one is stored.
+pub fn dump_values(r: &DistanceResult) -> Vec<Field> {
+    let mut v = vec![];
+    for (d, _) in &r.closest_distances {
+        v.push(Field::F(*d));
+        v.push(Field::Any);
+    }
+    v.push(Field::F(r.mean_closest_distance));
+    v.push(Field::F(r.min_closest_distance));
+    v.push(Field::Any);
+    v.push(Field::Any);
+    v
+}
+
 pub fn dump(r: &DistanceResult) -> Vec<Field> {
     let mut v = vec![];
     for (d, i) in &r.closest_distances {
@@ -105,7 +121,7 @@ fn run_history_inner(s: &mut Session, m: DistanceMetric, k: usize, start: &[[f64
     let op = format!("dr new {} {} {} {}", metric_name(m), k, start.len(), start.iter().map(lab_words).collect::<Vec<_>>().join(" "));
     let mut r = match r0 {
         Some(r) => {
-            s.op(op, ok(dump(&r)), nontrivial);
+            s.op(op, ok(dump_values(&r)), nontrivial);
             r
         }
         None => {
@@ -122,7 +138,7 @@ fn run_history_inner(s: &mut Session, m: DistanceMetric, k: usize, start: &[[f64
         let op = format!("dr update {} {}", i, lab_words(p));
         match r1 {
             Some(r1) => {
-                s.op(op, ok(dump(&r1)), nontrivial);
+                s.op(op, ok(dump_values(&r1)), nontrivial);
                 oracle(s, "DistanceResult::update", &labs, m, k, &r1, &hist);
                 r = r1;
             }
